@@ -1,13 +1,17 @@
 //! `mc <Cxx> [--tier quick|thorough] [--out evidence.json] [--replay file]`
 //! Bounded-exhaustive checks of rtcm-rs that do not need serde.
 
+mod bias;
 mod bits;
+mod builder;
 mod common;
 mod decode;
 mod field;
 mod frame;
 mod lists;
 mod msm;
+mod sig;
+mod textchk;
 mod replay;
 
 use mc_core::*;
@@ -24,7 +28,11 @@ fn main() {
         "C02" => decode::c02(&ctx),
         "C07" => bits::c07(&ctx),
         "C10" => msm::c10(&ctx),
+        "C12" => builder::c12(&ctx),
         "C15" => lists::c15(&ctx),
+        "C16" => bias::c16(&ctx),
+        "C17" => textchk::c17(&ctx),
+        "C18" => sig::c18(&ctx),
         "C08" => field::c08(&ctx),
         "C11" => field::c11(&ctx),
         "C03" => frame::c03(&ctx),
@@ -47,6 +55,7 @@ pub fn replay_more(kind: &str, r: &serde_json::Value) -> Result<String, String> 
         "bitfield" => bits::replay(r),
         "field_pattern" | "field_value" => field::replay(kind, r),
         "msm_triple" => msm::replay(kind, r),
+        "builder_history" => builder::replay(r),
         _ => None,
     };
     o.ok_or_else(|| format!("unknown or malformed replay kind {:?}", kind))
